@@ -8,7 +8,7 @@ import subprocess
 CFLAGS = ["-g", "-O0", "-w"]
 
 
-def sh(cmd, cwd, env=None, timeout=300):
+def sh(cmd, cwd, env=None, timeout=1800):  # compilers on a loaded machine: a slow compile is not a verdict
     try:
         p = subprocess.run(cmd, cwd=cwd, capture_output=True, text=True, errors="replace", env=env, timeout=timeout)
     except subprocess.TimeoutExpired:
